@@ -188,16 +188,12 @@ theorem cut_true (c : Nat) (hc : 0 < c) :
   | succ fuel ih =>
     intro buf h
     simp only [cut]
-    split
-    · rename_i h0
-      have : buf = [] := List.eq_nil_of_length_eq_zero h0
-      subst this; simp [chunksOf_nil]
-    · rename_i h0
-      have hne : buf ≠ [] := by intro e; subst e; simp at h0
-      rw [if_neg (by simp)]
-      rw [take_min_length, drop_min_length]
+    by_cases h0 : buf = []
+    · subst h0; simp [chunksOf_nil]
+    · rw [if_neg (by simpa using h0), if_neg (by simp)]
+      have hp : 0 < buf.length := List.length_pos_iff.mpr h0
       have hl : (buf.drop c).length < fuel := by simp [List.length_drop]; omega
-      rw [ih _ hl, chunksOf_of_ne_nil c hc buf hne]
+      rw [ih _ hl, chunksOf_of_ne_nil c hc buf h0]
 
 /-- upload(false) cuts full chunks only and keeps less than one chunk -/
 theorem cut_false (c : Nat) (hc : 0 < c) :
@@ -210,15 +206,13 @@ theorem cut_false (c : Nat) (hc : 0 < c) :
   | succ fuel ih =>
     intro buf h
     simp only [cut]
-    split
-    · rename_i h0
-      simp; omega
-    · rename_i h0
+    by_cases h0 : buf = []
+    · subst h0; simp; exact hc
+    · rw [if_neg (by simpa using h0)]
       by_cases hlt : buf.length < c
-      · rw [if_pos (by refine ⟨?_, by simp⟩; rw [Nat.min_eq_left (by omega)]; exact hlt)]
+      · rw [if_pos (by refine ⟨?_, by simp⟩; rw [List.length_take]; omega)]
         simp; exact hlt
-      · rw [if_neg (by intro hh; have := hh.1; rw [Nat.min_eq_right (by omega)] at this; omega)]
-        rw [take_min_length, drop_min_length]
+      · rw [if_neg (by intro hh; have := hh.1; rw [List.length_take] at this; omega)]
         have hl : (buf.drop c).length < fuel := by simp [List.length_drop]; omega
         obtain ⟨h1, h2, h3⟩ := ih _ hl
         refine ⟨?_, ?_, h3⟩
